@@ -42,4 +42,14 @@ def Disc (D : C → Prop) : List C → Prog C V O → Prop
 /-- run `b` in the state `a` left behind (other VM, same process) -/
 def after (a b : Prog C V O) (s : Store C V) : O := (run b (run a s).2).1
 
+/-- a run that begins by storing fixed values into some cells — the resets on the entry path of a
+run (`LoadAndRun`: `ResetUserOutput()`; VM construction: the hook variables) — and then does `k` -/
+def resetThen : List (C × V) → Prog C V O → Prog C V O
+  | [], k => k
+  | (c, v) :: r, k => .write c v (resetThen r k)
+
+/-- the same reset placed under a test of process or VM state `g`: `if test g { c = v }; k` -/
+def guardedReset (g : C) (test : V → Bool) (c : C) (v : V) (k : Prog C V O) : Prog C V O :=
+  .read g (fun x => if test x then .write c v k else k)
+
 end Model.Run
